@@ -17,7 +17,7 @@
                               same set of run-time values (nil aside).
    Proofs live in Types/OpTable.v and Types/CompatProofs.v. *)
 From Coq Require Import List NArith.
-From MS Require Import Types.OpTable Types.Compat Types.CompatProofs.
+From MS Require Import Types.OpTable Types.Compat Types.CompatProofs Types.CompatLit.
 Import ListNotations.
 
 (* (a) the whole domain: 25 binary operators x 6 x 6 kinds *)
@@ -53,6 +53,28 @@ Theorem C02_eq_complex_compat : forall fuel f t u,
 Proof. exact eq_complex_compat. Qed.
 Print Assumptions C02_eq_complex_compat.
 
+(* (b') the supplied side may be the type of a LITERAL (`nil`, `[]`, `[x, nil]`, `[[], [1]]`: not writable as an
+   annotation): whenever eq_complex accepts it against an annotation type -- either argument order, any flags --
+   the literal type can be completed (`inst`: nil -> T?, [] -> [T...], element-wise) to an annotation type with
+   the same kind skeleton as the expected one *)
+Check eq_complex_literal : forall fuel f t u,
+  clean t = true -> expr_ty u = true -> eq_complex fuel f t u = Some true ->
+  exists u', inst u u' /\ clean u' = true /\ skel u' = skel t.
+Theorem C02_eq_complex_literal : forall fuel f t u,
+  clean t = true -> expr_ty u = true -> eq_complex fuel f t u = Some true ->
+  exists u', inst u u' /\ clean u' = true /\ skel u' = skel t.
+Proof. exact eq_complex_literal. Qed.
+Print Assumptions C02_eq_complex_literal.
+
+Check eq_complex_literal_swapped : forall fuel f u t,
+  expr_ty u = true -> clean t = true -> eq_complex fuel f u t = Some true ->
+  exists u', inst u u' /\ clean u' = true /\ skel u' = skel t.
+Theorem C02_eq_complex_literal_swapped : forall fuel f u t,
+  expr_ty u = true -> clean t = true -> eq_complex fuel f u t = Some true ->
+  exists u', inst u u' /\ clean u' = true /\ skel u' = skel t.
+Proof. exact eq_complex_literal_swapped. Qed.
+Print Assumptions C02_eq_complex_literal_swapped.
+
 (* the model never runs out of fuel on the theorem's domain: the conclusion is not vacuous *)
 Check cmp_fuel : forall fixed n md t u,
   2 * (size t + size u) + 2 <= n -> cmp fixed n md t u <> None.
@@ -77,6 +99,15 @@ Example C02_nonvacuous_table :
   out_type BAnd KByte KByte = Some KByte /\ out_type Add KBool KByte = None /\
   out_type AddA KInt KFloat = None /\ out_type AddA KFloat KInt = Some KFloat /\
   out_type Mul KStr KInt = Some KStr /\ out_type Is KInt KStr = Some KBool /\ out_un Neg KBool = None.
+Proof. vm_compute. repeat split; reflexivity. Qed.
+
+Example C02_nonvacuous_literal :
+  eq_complex 20 fl_assign (TOpt t_int) TNil = Some true /\
+  eq_complex 20 fl_assign (TOpen (TOpt t_int)) (TMixed [t_int; TNil]) = Some true /\
+  eq_complex 20 fl_assign (TOpen t_str) (TMixed []) = Some true /\
+  eq_complex 20 fl_reassign (TMixed [TNil; t_int]) (TOpen (TOpt t_int)) = Some true /\
+  expr_ty (TMixed [TMixed []; TMixed [t_int; TNil]]) = true /\
+  eq_complex 20 fl_assign t_int TNil = Some false.
 Proof. vm_compute. repeat split; reflexivity. Qed.
 
 Example C02_nonvacuous_compat :
